@@ -6,18 +6,20 @@ import (
 	"strings"
 	"time"
 
+	exserver "github.com/cybergarage/go-redis/examples/go-redisd/server"
 	"github.com/cybergarage/go-redis/redis"
 )
 
 type connCase struct {
-	pw    string
-	hasPw bool
-	app   []string
-	table map[string]hres
-	def   hres
-	conns int
-	steps [][2]string // (conn index, op)
-	trace bool
+	pw      string
+	hasPw   bool
+	app     []string
+	table   map[string]hres
+	def     hres
+	conns   int
+	steps   [][2]string // (conn index, op)
+	trace   bool
+	example bool // the bundled example store is the handler (no double)
 }
 
 func parseCase(line string) connCase {
@@ -53,6 +55,8 @@ func parseCase(line string) connCase {
 			c.conns, _ = strconv.Atoi(v)
 		case "trace":
 			c.trace = v == "1"
+		case "handler":
+			c.example = v == "example"
 		case "steps":
 			if v != "-" {
 				for _, s := range strings.Split(v, ";") {
@@ -75,13 +79,20 @@ type connRun struct {
 const stepTimeout = 4 * time.Second
 
 func runConnCase(c connCase) string {
-	srv := redis.NewServer()
+	var srv *redis.Server
+	if c.example {
+		srv = exserver.NewServer().Server
+	} else {
+		srv = redis.NewServer()
+	}
 	srv.SetPort(0)
 	if c.hasPw {
 		srv.SetRequirePass(c.pw)
 	}
 	d := &double{table: c.table, def: c.def, srv: srv}
-	srv.SetCommandHandler(d)
+	if !c.example {
+		srv.SetCommandHandler(d)
+	}
 	runs := make([]*connRun, c.conns)
 	for i := range runs {
 		l := &evlog{}
